@@ -76,11 +76,12 @@ type Interp struct {
 	res       *PathResult
 	m         *models
 
-	threads  []*Thread
-	cur      *Thread
-	pending  interface{} // sentinel raised in a non-main thread, to be re-raised in main
-	killed   bool
-	preempts int
+	threads      []*Thread
+	cur          *Thread
+	pending      interface{} // sentinel raised in a non-main thread, to be re-raised in main
+	killed       bool
+	preempts     int
+	freeSwitches int
 
 	fnStats    map[*ssa.Function]int
 	traceStack string
@@ -339,6 +340,12 @@ func (in *Interp) callSSA(caller *frame, fn *ssa.Function, args []Value, env []V
 	}
 	for i, fv := range fn.FreeVars {
 		fr.env[fv] = env[i]
+	}
+	if th != nil {
+		// per-thread stack of interpreted functions (vx.PreemptWithin restricts pre-emption to code running under a
+		// named function)
+		th.fnStack = append(th.fnStack, fn)
+		defer func() { th.fnStack = th.fnStack[:len(th.fnStack)-1] }()
 	}
 	for fr.block != nil {
 		in.runFrame(fr)
@@ -978,6 +985,9 @@ func (in *Interp) decideN(n int, kind string) int {
 	in.sol.Push()
 	in.log = append(in.log, decision{N: n, Chosen: 0, Kind: kind, Pushes: true})
 	in.res.Decisions++
+	if strings.HasPrefix(kind, "sched:") {
+		in.res.note("fork:" + kind)
+	}
 	return 0
 }
 
